@@ -3,7 +3,13 @@ package main
 import (
 	"bytes"
 	"fmt"
+	"net/url"
+	"os"
+	"path/filepath"
 	"strings"
+
+	"github.com/ogen-go/ogen/gen"
+	"verifharness/internal/gc"
 
 	"github.com/ogen-go/ogen"
 	"github.com/ogen-go/ogen/openapi/parser"
@@ -201,6 +207,177 @@ func c12(r *lp.Run) {
 	}
 	c12Equivalence(r, rng)
 	c12SpecKeys(r)
+	c12SpecKeySets(r, rng)
+	c12Router(r, rng)
+}
+
+// random sets of 3–5 path keys with re-spellings: the document is rejected as containing a duplicate
+// exactly when two keys have the same normal form (also when other keys sort between them)
+func c12SpecKeySets(r *lp.Run, rng *lp.Rand) {
+	n := r.N(300, 6000)
+	base := []string{"/user/abc", "/user/Zed", "/user/a-b", "/file/a%2Fb", "/file/a%2Fb/meta", "/x~y", "/a b", "/user/abd", "/%C3%A9"}
+	for i := 0; i < n; i++ {
+		k := 3 + rng.Intn(3)
+		var keys []string
+		for j := 0; j < k; j++ {
+			b := lp.Pick(rng, base)
+			if rng.Chance(60) {
+				b = respellEscaped(rng, b)
+			}
+			keys = append(keys, b)
+		}
+		// expected: some pair with equal reference normal form (identical spellings cannot both be JSON keys)
+		seen := map[string]bool{}
+		uniq := []string{}
+		for _, key := range keys {
+			if !seen[key] {
+				seen[key] = true
+				uniq = append(uniq, key)
+			}
+		}
+		norm := map[string]string{}
+		want := "accepted"
+		for _, key := range uniq {
+			nk, ok := refNormalize(key)
+			if !ok {
+				want = "skip"
+				break
+			}
+			if other, dup := norm[nk]; dup && other != key {
+				want = "duplicate"
+			}
+			norm[nk] = key
+		}
+		if want == "skip" {
+			continue
+		}
+		var parts []string
+		for j, key := range uniq {
+			parts = append(parts, fmt.Sprintf(`%q:{"get":{"operationId":"o%d","responses":{"200":{"description":"ok"}}}}`, key, j))
+		}
+		doc := `{"openapi":"3.0.3","info":{"title":"t","version":"1"},"paths":{` + strings.Join(parts, ",") + `}}`
+		got := lp.Guard(func() string {
+			spec, err := ogen.Parse([]byte(doc))
+			if err != nil {
+				return "parse-err"
+			}
+			_, err = parser.Parse(spec, parser.Settings{})
+			if err != nil {
+				if strings.Contains(err.Error(), "duplicate") {
+					return "duplicate"
+				}
+				return "other-err:" + err.Error()
+			}
+			return "accepted"
+		})
+		r.Count("speckeyset "+strings.Join(uniq, " "), "spec-key-set:"+got, true)
+		r.PropCheck()
+		if got != want {
+			r.Fail(lp.PropFail{Property: "C12", What: "spec path keys are not compared for duplicates modulo normalization", Input: map[string]any{"keys": uniq}, Observed: got, Expected: want})
+		}
+	}
+}
+
+// respellEscaped: re-spell an already escaped path: flip hex case of escapes, needlessly escape unreserved bytes
+func respellEscaped(rng *lp.Rand, p string) string {
+	var sb strings.Builder
+	for i := 0; i < len(p); i++ {
+		c := p[i]
+		switch {
+		case c == '%' && i+2 < len(p):
+			h := p[i+1 : i+3]
+			if rng.Bool() {
+				h = strings.ToLower(h)
+			} else {
+				h = strings.ToUpper(h)
+			}
+			sb.WriteString("%" + h)
+			i += 2
+		case refUnreserved(c) && rng.Chance(25):
+			if rng.Bool() {
+				fmt.Fprintf(&sb, "%%%02x", c)
+			} else {
+				fmt.Fprintf(&sb, "%%%02X", c)
+			}
+		default:
+			sb.WriteByte(c)
+		}
+	}
+	return sb.String()
+}
+
+// request paths that differ only in hex case or needless escaping reach the same operation with the same
+// arguments — on a regenerated server, with and without a configured path prefix, FindPath and ServeHTTP
+func c12Router(r *lp.Run, rng *lp.Rand) {
+	scratch := os.Getenv("VERIF_SCRATCH")
+	if scratch == "" {
+		scratch = "/var/tmp"
+	}
+	mod, err := gc.NewModule(filepath.Join(scratch, fmt.Sprintf("gc-c12-%d", os.Getpid())))
+	if err != nil {
+		panic(err)
+	}
+	defer os.RemoveAll(mod.Dir)
+	routes := []rroute{{"GET", "/pet/{name}"}, {"GET", "/pet/{name}/toys/{toy}"}, {"GET", "/a-b/c~d"}, {"POST", "/pet/{name}"}, {"GET", "/v1/{x}.json"}}
+	pkg, err := mod.Add("nr", []byte(specForRoutes(routes)), gen.Options{})
+	if err != nil {
+		r.Fail(lp.PropFail{Property: "C12", What: "the generator refuses the route set of the normalization check", Input: rsetLine(routes), Observed: err.Error(), Expected: "generated router"})
+		return
+	}
+	bin, err := mod.Build()
+	if err != nil {
+		r.Fail(lp.PropFail{Property: "C02", What: "generated router does not compile", Input: rsetLine(routes), Observed: err.Error(), Expected: "compiles"})
+		return
+	}
+	drv, err := gc.Start(bin)
+	if err != nil {
+		panic(err)
+	}
+	defer drv.Close()
+	args := []string{"a", "a/b", "a b", "é", "a%b", "x.y", "~", "A-Z", "a%2Fb", "+", "a;b=c"}
+	for _, prefix := range []string{"", "/api/v1", "/a~b"} {
+		for _, rt := range routes {
+			n := tmplNParams(rt.tmpl)
+			for k := 0; k < r.N(12, 120); k++ {
+				vals := make([]string, n)
+				esc := make([]string, n)
+				for j := range vals {
+					vals[j] = lp.Pick(rng, args)
+					esc[j] = url.PathEscape(vals[j])
+				}
+				canonical := prefix + tmplInst(rt.tmpl, esc)
+				decoded, derr := url.PathUnescape(canonical)
+				if derr != nil {
+					continue
+				}
+				var items [][3]string
+				spellings := []string{canonical}
+				for v := 0; v < 4; v++ {
+					spellings = append(spellings, respellEscaped(rng, canonical))
+				}
+				for _, sp := range spellings {
+					raw := sp
+					if raw == decoded {
+						raw = ""
+					}
+					items = append(items, [3]string{rt.method, decoded, raw})
+				}
+				ans, _ := drv.Do(map[string]any{"pkg": pkg.Name, "cmd": "batch", "prefix": prefix, "items": items})
+				res, ok := ans["results"].([]any)
+				if !ok {
+					r.Fail(lp.PropFail{Property: "C12", What: "driver failure", Input: canonical, Observed: fmt.Sprint(ans), Expected: "results"})
+					return
+				}
+				for i := 1; i < len(res); i++ {
+					r.Count("c12router "+prefix+spellings[i], "router-respelling", spellings[i] != canonical)
+					r.PropCheck()
+					if res[i] != res[0] {
+						r.Fail(lp.PropFail{Property: "C12", What: "two spellings of one request path (hex case / needless escaping) are not dispatched alike", Input: map[string]any{"routes": rsetLine(routes), "prefix": prefix, "method": rt.method, "path_a": canonical, "path_b": spellings[i]}, Observed: fmt.Sprint(res[i]), Expected: fmt.Sprint(res[0])})
+					}
+				}
+			}
+		}
+	}
 }
 
 // equivalent re-escapings normalize to the same string (implementation-only check)
